@@ -2,7 +2,8 @@ package c19
 
 // Registry lists the harness entry points of this package for native replay.
 var Registry = map[string]func([]int64){
-	"HarnessLog2":    func([]int64) { HarnessLog2() },
-	"HarnessCompact": func([]int64) { HarnessCompact() },
-	"HarnessWork":    func([]int64) { HarnessWork() },
+	"HarnessLog2":         func([]int64) { HarnessLog2() },
+	"HarnessCompact":      func([]int64) { HarnessCompact() },
+	"HarnessWork":         func([]int64) { HarnessWork() },
+	"HarnessWorkRepeated": func([]int64) { HarnessWorkRepeated() },
 }
